@@ -6,6 +6,7 @@ import Ldlm.Driver.Lin
 import Ldlm.Driver.LinThreads
 import Ldlm.Driver.LinRest
 import Ldlm.Driver.LinClient
+import Ldlm.Driver.LinCrash
 
 def main (args : List String) : IO UInt32 := do
   match args with
@@ -18,4 +19,5 @@ def main (args : List String) : IO UInt32 := do
   | ["linthreads"] => Ldlm.Driver.ThreadsLin.linThreadsMain; return 0
   | ["linrest"] => Ldlm.Driver.RestLin.linRestMain; return 0
   | ["linclient"] => Ldlm.Driver.ClientLin.linClientMain; return 0
+  | ["lincrash"] => Ldlm.Driver.CrashLin.linCrashMain; return 0
   | _ => IO.eprintln "usage: driver (codec|seq|conc) ..."; return 2
